@@ -82,6 +82,8 @@ def write_module(d, name, body, extends=("Integers", "Sequences")):
         fh.write("---- MODULE %s ----\n" % name)
         if extends:
             fh.write("EXTENDS %s\n" % ", ".join(extends))
+        else:
+            fh.write("\n")
         fh.write(body)
         fh.write("\n====\n")
     return path
